@@ -756,6 +756,7 @@ var (
 )
 
 type world struct {
+	nreq   int
 	sh     shape
 	rnd    *rand.Rand
 	accs   []*accessory.Accessory
@@ -917,7 +918,19 @@ func (w *world) do(ci int, method, target string, body []byte) (*refctl.Message,
 	}
 	c := w.conns[ci]
 	f0 := c.FramesIn
-	m, err := c.Do(method, target, refctl.ContentJSON, body)
+	var m *refctl.Message
+	var err error
+	w.nreq++
+	if method == "PUT" && len(body) > 0 && w.nreq%6 == 0 {
+		// the same request without a Content-Length: the body in transfer-encoding chunks
+		sizes := [][]int{{1 << 20}, {1}, {7, 1, 300}, {16, 16}}[w.nreq/6%4]
+		run.Count("write_requests_sent_in_chunked_encoding", 1)
+		if err = c.Send(refctl.BuildRequestChunked(method, target, refctl.ContentJSON, body, sizes)); err == nil {
+			m, err = c.ReadResponse()
+		}
+	} else {
+		m, err = c.Do(method, target, refctl.ContentJSON, body)
+	}
 	if err == refctl.ErrTimeout {
 		un, late, perr := w.app.Unanswered(c)
 		switch {
@@ -2178,6 +2191,7 @@ func main() {
 	r.Floor("formats", len(formatsSeen()), 7)
 	r.Floor("entries_without_a_value_checked", int(r.Counter("entries_without_a_value_checked")), 100)
 	r.Floor("answers_abandoned_by_a_third_connection", int(r.Counter("answers_abandoned_by_a_third_connection")), 40)
+	r.Floor("write_requests_sent_in_chunked_encoding", int(r.Counter("write_requests_sent_in_chunked_encoding")), 200)
 	r.Count("float_values_next_to_the_current_value", int(floatNeighbours.Load()))
 	r.Floor("float_values_next_to_the_current_value", int(floatNeighbours.Load()), 30)
 	r.Count("integer_writes_spelled_with_exponent_or_fraction", int(intSpellings.Load()))
